@@ -147,7 +147,7 @@ def check_secparams_typed(ctx: Ctx, rep: Report, rule: str = "C20-R11") -> None:
     used for every later request - an OCTET STRING in the place of msgAuthoritativeEngineBoots used to be accepted,
     cached, and made every following request of that client fail with a TypeError without sending anything.
     """
-    from ..engine.minieval import Instance, MiniEval, Raised, Sym, Unevaluable
+    from ..engine.minieval import Instance, MiniEval, PyModel, Raised, Sym, Unevaluable
 
     cls = ctx.u.cls("puresnmp_plugins.security.usm:USMSecurityParameters")
     fn = cls.methods.get("from_snmp_type")
@@ -176,6 +176,14 @@ def check_secparams_typed(ctx: Ctx, rep: Report, rule: str = "C20-R11") -> None:
         items = [member(k_, i) for i, k_ in enumerate(layout)]
         items[pos] = member(int_cls if layout[pos] is oct_cls else oct_cls, pos)
         cases.append((f"{names[pos]} is an {'INTEGER' if layout[pos] is oct_cls else 'OCTET STRING'}", items, pos))
+    # a subclass with another tag (TimeTicks is an x690 Integer subclass; its python value is a timedelta)
+    ticks_cls = ctx.u.classes.get("puresnmp.types:TimeTicks")
+    if ticks_cls is not None:
+        for pos in (1, 2):
+            items = [member(k_, i) for i, k_ in enumerate(layout)]
+            items[pos] = member(ticks_cls, pos)
+            items[pos].attrs.update(value=1000 + pos, pyvalue=1000 + pos, pythonize=PyModel(lambda a, k: Sym("timedelta"), "TimeTicks.pythonize"))
+            cases.append((f"{names[pos]} is a TimeTicks (an Integer subclass with an application tag)", items, pos))
     cases.append(("only five members", [member(k_, i) for i, k_ in enumerate(layout)][:5], -1))
     cases.append(("seven members", [member(k_, i) for i, k_ in enumerate(layout)] + [member(oct_cls, 6)], -1))
     for label, items, bad in cases:
